@@ -43,7 +43,7 @@ import (
 
 func main() {
 	if len(os.Args) < 2 {
-		fmt.Fprintln(os.Stderr, "usage: c08 gen|exec|oracle ...")
+		fmt.Fprintln(os.Stderr, "usage: c08 gen|exec|oracle|stats ...")
 		os.Exit(2)
 	}
 	switch os.Args[1] {
@@ -55,6 +55,8 @@ func main() {
 		execOps(os.Args[2], os.Args[3], os.Args[4])
 	case "oracle":
 		oracle(os.Args[2], os.Args[3], os.Args[4])
+	case "stats":
+		stats(os.Args[3], os.Args[4]) // os.Args[2] = stream (unused)
 	default:
 		os.Exit(2)
 	}
@@ -73,8 +75,10 @@ type sut struct {
 	providers []string
 	multi     bool
 	proxyType model.NodeType
-	// NewBuilderForService: the service the chain is built for (name, namespace, registry k8s | ext); nil = none
-	svc *[3]string
+	// NewBuilderForService: the service the chain is built for; nil = none
+	svc *svcInfo
+	// features.EnableSelectorBasedK8sGatewayPolicy switched off
+	noSelectorGW bool
 	// NewWaypointTerminationBuilder (HBONE termination layer of a waypoint): standard selection, no filter state
 	term bool
 	// ONE pair of plugin builders (CUSTOM, Local) per case and useFilterState value, reused by every build op
@@ -112,8 +116,15 @@ func (s *sut) lastRule() *authpb.Rule {
 	return p.Spec.Rules[len(p.Spec.Rules)-1]
 }
 
+type svcInfo struct {
+	name, objectName, ns string // Attributes.Name, Attributes.ObjectName, Attributes.Namespace
+	k8s                  bool   // registry Kubernetes (else External)
+}
+
 func actionOf(a string) authpb.AuthorizationPolicy_Action {
 	switch a {
+	case "UNKNOWN":
+		return authpb.AuthorizationPolicy_Action(7) // outside the enum: updateAuthorizationPoliciesResult ignores it
 	case "DENY":
 		return authpb.AuthorizationPolicy_DENY
 	case "AUDIT":
@@ -234,6 +245,7 @@ func (s *sut) newBuilders(useAuth bool) [2]*authzplugin.Builder {
 	}
 	proxy := &model.Proxy{Type: s.proxyType, ConfigNamespace: s.wlNS, Labels: s.wlLabels, Metadata: &model.NodeMetadata{}}
 	features.EnableMultipleCustomAuthzProviders = s.multi
+	features.EnableSelectorBasedK8sGatewayPolicy = !s.noSelectorGW
 	if s.term {
 		return [2]*authzplugin.Builder{
 			authzplugin.NewWaypointTerminationBuilder(authzplugin.Custom, push, proxy),
@@ -242,11 +254,13 @@ func (s *sut) newBuilders(useAuth bool) [2]*authzplugin.Builder {
 	}
 	if s.svc != nil {
 		reg := provider.Kubernetes
-		if s.svc[2] != "k8s" {
+		if !s.svc.k8s {
 			reg = provider.External
 		}
-		svc := &model.Service{Hostname: host.Name(s.svc[0] + "." + s.svc[1] + ".svc.cluster.local"),
-			Attributes: model.ServiceAttributes{Name: s.svc[0], Namespace: s.svc[1], ServiceRegistry: reg}}
+		// a ServiceEntry service: Attributes.Name = the hostname, ObjectName = the ServiceEntry's name
+		svc := &model.Service{Hostname: host.Name(s.svc.name + "." + s.svc.ns + ".svc.cluster.local"),
+			Attributes: model.ServiceAttributes{Name: s.svc.name, Namespace: s.svc.ns, ServiceRegistry: reg}}
+		svc.Attributes.ObjectName = s.svc.objectName
 		return [2]*authzplugin.Builder{
 			authzplugin.NewBuilderForService(authzplugin.Custom, push, proxy, !useAuth, svc),
 			authzplugin.NewBuilderForService(authzplugin.Local, push, proxy, !useAuth, svc),
@@ -321,10 +335,19 @@ func (s *sut) apply(f []string) (out string) {
 		if len(f) > 4 && f[4] == "waypoint" {
 			s.proxyType = model.Waypoint
 		}
-		s.term = len(f) > 6 && f[6] == "term"
+		if len(f) > 6 {
+			for _, fl := range wire.DecList(f[6]) {
+				switch fl {
+				case "term":
+					s.term = true
+				case "nosel":
+					s.noSelectorGW = true
+				}
+			}
+		}
 		if len(f) > 5 {
-			if q := strings.Split(wire.Dec(f[5]), "|"); len(q) == 3 && !s.term {
-				s.svc = &[3]string{q[0], q[1], q[2]}
+			if q := strings.Split(wire.Dec(f[5]), "|"); len(q) == 4 {
+				s.svc = &svcInfo{name: q[0], objectName: q[1], ns: q[2], k8s: q[3] == "k8s"}
 			}
 		}
 		return "ok"
@@ -358,6 +381,10 @@ func (s *sut) apply(f []string) (out string) {
 					q = append(q, "")
 				}
 				p.Spec.TargetRefs = append(p.Spec.TargetRefs, &typepb.PolicyTargetReference{Group: q[0], Kind: q[1], Name: q[2], Namespace: q[3]})
+			}
+			// `legacy`: the first reference is the legacy single spec.targetRef
+			if len(f) > 8 && f[8] == "legacy" && len(p.Spec.TargetRefs) > 0 {
+				p.Spec.TargetRef, p.Spec.TargetRefs = p.Spec.TargetRefs[0], p.Spec.TargetRefs[1:]
 			}
 		}
 		s.policies = append(s.policies, p)
